@@ -11,6 +11,8 @@ NANOS = 1000000000
 # the first few VIOLATION lines): a correspondence difference is reported as no-failing-input-found only after the whole
 # generated space of the run has been searched for a real failing input.
 PENDING = []
+import threading
+EVAL_LOCK = threading.Lock()
 
 
 def report(ck, rep, found_input=True):
@@ -644,6 +646,7 @@ def gen_history(rng, bias='edits', length=None):
         ops.append(('G', b'p/src/big.c', rng.choice([1024, 1500, 4000]), rng.randrange(1000)))
     in_pool = [b'p/src/a.c', b'p/src/b.h', b'p/src/deep/c.c', b'p/src/notes.txt', b'p/src/big.c', b'q/in.txt', b'q/gen/x.o']
     new_pool = [b'p/src/new.c', b'p/src/deep/er/n.h', b'p/src/x.txt', b'q/gen/y.o', b'p/src/caf\xc3\xa9.c', b'p/src/.zinoma/z.c']
+    odd_pool = [b'p/src/latin1-\xe9.c', b'p/out/\xff\xfe.bin']
     val_pool = [b'p/val.txt', b'q/val.txt', b'p/outval.txt']
     out_pool = [b'p/out/o.bin', b'p/cout.txt', b'p/nout', b'q/gen/x.o']
     n = length or rng.randrange(10, 18)
@@ -693,9 +696,9 @@ def gen_history(rng, bias='edits', length=None):
         elif k == 'keep':
             ops.append(('K', rng.choice(in_pool[:4]), fresh()))
         elif k == 'add':
-            ops.append(('W', rng.choice(new_pool), fresh()))
+            ops.append(('W', rng.choice(odd_pool) if rng.random() < 0.1 else rng.choice(new_pool), fresh()))
         elif k == 'delete':
-            ops.append(('D', rng.choice(in_pool + new_pool + out_pool + [b'p/out'])))
+            ops.append(('D', rng.choice(in_pool + new_pool + odd_pool + out_pool + [b'p/out'])))
         elif k == 'rename':
             ops.append(('R', rng.choice(in_pool[:4]), rng.choice(new_pool)))
         elif k == 'cmd':
@@ -816,6 +819,11 @@ def check_histories(ck, d, hists, tag, props):
             index[cid] = (hid, op, v, sp)
     model = run_model_lines('incr', model_lines, d, tag + '_inc') if model_lines else {}
     decs = run_model_lines('codec', codec_lines, d, tag + '_dec') if codec_lines else {}
+    with EVAL_LOCK:
+        return evaluate_histories(ck, hists, scratch_root, rc, err, index, order, model, decs)
+
+
+def evaluate_histories(ck, hists, scratch_root, rc, err, index, order, model, decs):
     results = []
     expect = {}          # (hid, target) -> world recorded at the last completion whose state could be stored, else None
     tampered = {}        # (hid, target) -> the state file was written/removed by something else than zinoma since
@@ -857,6 +865,21 @@ def check_histories(ck, d, hists, tag, props):
                  sample=dict(info, target=repr(t)) if res == 'Skipped' else None)
         ck.tally('inv:%s/%s' % (op[2], res))
         ck.tally('layout:' + h['flavour'])
+        if res == 'Completed' and disk1 is not None and d1 == 'none':
+            ck.tally('mech:serialisation_failed(non-UTF-8 path)_partial_file_left')
+        if res == 'Completed' and disk1 is None and has_input:
+            ck.tally('mech:state_not_computable(no record)')
+        if disk0 is not None and d0 == 'none':
+            ck.tally('mech:undecodable_state_file_before')
+        if res == 'Skipped' and expect.get(tk) is not None:
+            a_in, a_out, _ = parse_world(expect[tk])
+            b_in, b_out, _ = parse_world(w0)
+            for a, b in ((a_in, b_in), (a_out, b_out)):
+                for pth in set(a) & set(b):
+                    if a[pth][0] != b[pth][0] and a[pth][1] == b[pth][1]:
+                        ck.tally('mech:skipped_with_changed_mtime_same_content')
+                    if a[pth][0] == b[pth][0] and a[pth][1] != b[pth][1]:
+                        ck.tally('mech:skipped_with_same_mtime_changed_content')
         found = False
 
         def viol(what, found_input=True):
@@ -968,7 +991,8 @@ def crash_check(ck, d, n_scenarios, offsets_mode):
     child processes; then a fresh process observes what is left and invokes the target again.
     offsets_mode: 'sample' | 'all'."""
     rng = ck.rng
-    scratch = os.path.join(d, 'crash_trees')
+    scratch = '/tmp/zvc%d' % os.getpid()
+    vf.sh(['rm', '-rf', scratch])
     os.makedirs(scratch, exist_ok=True)
     scratch_root = os.path.realpath(scratch).encode()
     env = {'ZINOMA_VERIF_SCRATCH': scratch}
@@ -1017,7 +1041,7 @@ def crash_check(ck, d, n_scenarios, offsets_mode):
         e['ZINOMA_VERIF_CRASH'] = pt
         rcb, outb, errb = vf.run_impl('incr', cfb, env=e, timeout=120)
         return hid, rcb, outb
-    with concurrent.futures.ThreadPoolExecutor(max_workers=8) as ex:
+    with concurrent.futures.ThreadPoolExecutor(max_workers=12) as ex:
         bres = dict((hid, (rcb, outb)) for hid, rcb, outb in ex.map(seg_b, cases))
     # segment C: what is left, then two more invocations
     lines = []
@@ -1538,3 +1562,14 @@ def c18_check(ck, d, n_seq):
             for rep, found in problems[:3]:
                 report(ck, rep, found)
     vf.sh(['rm', '-rf', bb])
+
+
+def check_histories_parallel(ck, d, batches, props, workers=4):
+    """batches: [(tag, {hid: history})] generated beforehand (deterministically); the implementation and model processes of the
+    batches run concurrently, the evaluation is serialised."""
+    def work(b):
+        tag, hists = b
+        check_histories(ck, d, hists, tag, props)
+        vf.sh(['rm', '-rf', os.path.join(d, 'trees_' + tag)])
+    with concurrent.futures.ThreadPoolExecutor(max_workers=workers) as ex:
+        list(ex.map(work, batches))
